@@ -54,6 +54,16 @@ def walkTree {I σ : Type} (fn : Bytes → I → Option String → σ → M (Opt
   let (err, st) ← walkNode fn fuel root tree st
   if err == some "SkipDir" || err == some "SkipAll" then pure (none, st) else pure (err, st)
 
+/-- `filepath.Walk(root, fn)` when the root may not exist (`none`): Lstat fails and the callback is called once with that
+    error and no FileInfo (`default` stands for the nil interface value, which correct callbacks do not touch) -/
+def walkTreeOpt {I σ : Type} [Inhabited I] (fn : Bytes → I → Option String → σ → M (Option String × σ)) (fuel : Nat)
+    (root : Bytes) (tree : Option (FsTree I)) (st : σ) : M (Option String × σ) :=
+  match tree with
+  | some t => walkTree fn fuel root t st
+  | none => do
+    let (err, st) ← fn root default (some "lstat: no such file or directory") st
+    if err == some "SkipDir" || err == some "SkipAll" then pure (none, st) else pure (err, st)
+
 /-- filepath.Rel(base, targ) for a target that is the base itself or lies below it (the only case a walk produces): both
     are cleaned first.  Other targets (which would need `..` elements) are reported as an error here. -/
 def fpRel (base targ : Bytes) : Bytes × Option String :=
